@@ -120,15 +120,17 @@ _pb("C19", "contract-based deductive verification (pyvc, read-only heap with gho
     "preorder, postorder, levels and the export numbering are bounded only.",
     "proof for siblings/dominance/lca, bounded stand-in for the rest; 'other'")
 
-_pb("C04", "contract-based deductive verification (pyvc) of add_topnode (with allocation) and of the mover step (detach/attach idiom) as a block contract at every re-attachment site of root_attach, raising, boyd_split and the three punctuation movers; bounded stand-in for whole transformations and sequences",
+_pb("C04", "contract-based deductive verification (pyvc) of add_topnode (with allocation) and of the mover step (detach/attach idiom) as a block contract at every re-attachment site of root_attach, raising, boyd_split and the three punctuation movers; syntactic obligation 'returns the object it was given' for the fourteen in-place transformations; bounded stand-in for whole transformations and sequences",
     "add_topnode is proved to put exactly one new TOP node above the root and to change nothing else. "
     "Every `children.remove(X)` of the six re-attaching transformations is located in the real AST and the surrounding "
     "step is executed symbolically on an arbitrary link-consistent heap: links stay consistent, only X changes parent, the old "
     "parent loses exactly X, the target gains exactly X (or X becomes a detached root). The side condition of the step - "
     "the target is not at or below X, so no cycle arises - is a lemma for raising (target is the grandparent), for the "
     "three punctuation movers (X is a token, the target has children) and for root_attach (C12); 'no childless "
-    "constituent' is proved for the guarded moves (C12, C13). Token sequence, label multisets and the transformations as "
-    "wholes are bounded only.",
+    "constituent' is proved for the guarded moves (C12, C13). Each of the fourteen in-place transformations returns the very "
+    "object it was given (decided on the AST: every return returns the never-rebound parameter `tree`; when that is no longer "
+    "syntactically evident the obligation is undecided, never a violation). Token sequence, label multisets and the "
+    "transformations as wholes are bounded only.",
     "proof of the link-consistency step at 9 sites (block contracts), bounded stand-in for the transformations; 'other'")
 _pb("C09", "contract-based deductive verification (pyvc) of grammarconst.label_strip_fanout (loop invariant, variant, raises iff all digits), of grammaranalysis.is_contextfree (nested loops over the keys of a nested dict, early return), of the last statements of fan_out and of the guard of grammaroutput.lopar (block contracts); bounded stand-in for the grammar files",
     "label_strip_fanout removes exactly the maximal trailing digit run and raises IndexError exactly for all-digit "
